@@ -512,10 +512,12 @@ class IntervalNumpyPS(IntervalPS):
         min_, max_ = description
         if base_objects_i is None:
             flg = (min_ <= self._data[:,0]) & (self._data[:, 1] <= max_)
-        else:
-            flg = (min_ <= self._data[base_objects_i, 0]) & (self._data[base_objects_i, 1] <= max_)
+            return flg.nonzero()[0].tolist()
 
-        return flg.nonzero()[0].tolist()
+        # report the original indexes of the selected objects, not their positions in ``base_objects_i``
+        base_objects_i = np.asarray(list(base_objects_i), dtype=int)
+        flg = (min_ <= self._data[base_objects_i, 0]) & (self._data[base_objects_i, 1] <= max_)
+        return base_objects_i[flg].tolist()
 
     def __eq__(self, other):
         same_data = (self._data == other.data).all()
